@@ -74,7 +74,7 @@ theorem ilu_pivot_total (inp : PivIn Rat Rat) (hfill : 0 < inp.fillTol)
           cases hmi : inp.milu <;> simp [hmi, Milu.absVariant] at hm ⊢)
         linarith
       · exact h1
-    unfold realPivot iluPivotChoice
+    unfold realPivot realPivotG iluPivotChoice
     simp only []
     generalize hpm : (if inp.milu.absVariant = true then (scan inp).pivmax + inp.dropSum else (scan inp).pivmax) = pm at hpm0 ⊢
     rw [if_neg (not_lt.mpr hpm0)]
@@ -92,7 +92,7 @@ theorem ilu_pivot_total (inp : PivIn Rat Rat) (hfill : 0 < inp.fillTol)
     · have hpos : 0 < pm := lt_of_le_of_ne hpm0 (Ne.symm hz)
       have hbeq : (pm == 0) = false := by simpa using hz
       simp only [hbeq, Bool.false_eq_true, if_false]
-      have hcp := choosePtr_spec inp inp.dropSum pm hpos hpm hlen inv h2 h3
+      have hcp := choosePtr_spec inp (fun p => inp.u * p) inp.dropSum pm hpos hpm hlen inv h2 h3
       refine ⟨_, rfl, hcp.1, ?_, Or.inl trivial⟩
       exact reset_ne_zero inp.milu inp.dropSum _ (fun hm => hds (by
         cases hmi : inp.milu <;> simp [hmi, Milu.absVariant] at hm ⊢)) hcp.2
@@ -131,7 +131,7 @@ theorem ilu_pivot_total_complex (t : Cx Rat → Rat) (ht0 : ∀ z, 0 ≤ t z) (h
         have := (habs hm).1
         linarith
       · exact h1
-    unfold complexPivot iluPivotChoice
+    unfold complexPivot complexPivotG iluPivotChoice
     simp only []
     generalize hpm : (if inp.milu.absVariant = true then (scan inp).pivmax + inp.dropSum.re else (scan inp).pivmax) = pm at hpm0 ⊢
     rw [if_neg (not_lt.mpr hpm0)]
@@ -148,7 +148,7 @@ theorem ilu_pivot_total_complex (t : Cx Rat → Rat) (ht0 : ∀ z, 0 ≤ t z) (h
     · have hpos : 0 < pm := lt_of_le_of_ne hpm0 (Ne.symm hz)
       have hbeq : (pm == 0) = false := by simpa using hz
       simp only [hbeq, Bool.false_eq_true, if_false]
-      have hcp := choosePtr_spec inp inp.dropSum.re pm hpos hpm hlen inv h2 h3
+      have hcp := choosePtr_spec inp (fun p => inp.u * p) inp.dropSum.re pm hpos hpm hlen inv h2 h3
       refine ⟨_, rfl, hcp.1, ?_, Or.inl trivial⟩
       exact reset_ne_zero_cx t ht0 ht inp.milu inp.dropSum _ habs hcp.2
 
@@ -190,7 +190,7 @@ theorem ilu_pivot_no_candidate (inp : PivIn Rat Rat) (hm : inp.milu.absVariant =
       have h0 := this inp.cands.length (le_refl _)
       rw [← scan_eq_scanTo, h4] at h0
       cases h0
-  unfold realPivot iluPivotChoice
+  unfold realPivot realPivotG iluPivotChoice
   simp only [hm, Bool.false_eq_true, if_false, hpm]
   have : (-1 : Rat) < 0 := by norm_num
   simp [this]
